@@ -7,9 +7,9 @@ WD = os.path.join(BUILD, "conc")
 
 PLAN = {
     "C05": dict(what="pending,closerace,cycles,api", owns=["C05"], props="props/C05.v"),
-    "C06": dict(what="pending,closerace", owns=["C06"], props="props/C06.v"),
-    "C07": dict(what="api,closerace", owns=["C07"], props="props/C07.v", race=True),
-    "C13": dict(what="closerace,cycles,limit", owns=["C13"], props="props/C13.v"),
+    "C06": dict(what="pending,closerace,readerr,cycles", owns=["C06"], props="props/C06.v"),
+    "C07": dict(what="api,closerace,pending", owns=["C07"], props="props/C07.v", race=True),
+    "C13": dict(what="closerace,cycles,limit,readerr", owns=["C13"], props="props/C13.v"),
     "C14": dict(what="buffers,absorb,others", owns=["C14"], props="props/C14.v"),
 }
 
@@ -20,7 +20,7 @@ def run_conc(binp, what, seed, tier, tag, race=False):
     out_all = ""
     rc_all = 0
     if fams:
-        rc, out = sh("%s -seed %d -tier %s -what %s" % (binp, seed, tier, ",".join(fams)), timeout=2400, cwd=WD)
+        rc, out = sh("%s -seed %d -tier %s -what %s" % (binp, seed, tier, ",".join(fams)), timeout=900, cwd=WD)
         out_all += out
         rc_all = rc
     if "limit" in what.split(","):
